@@ -1,5 +1,6 @@
 """Recording real Enforcer.enforce / authorize executions as cases for
 spec/Conf_Eval.tla."""
+import os
 import copy
 
 from harness import ev, tlc
@@ -182,13 +183,41 @@ class Session:
     API between enforcement calls; the recorded session is validated by
     spec/Trace_Store.tla (the store is a state machine there)."""
 
-    def __init__(self, rules, dflt=None, registered=(), enforce_scope=True, via='rules_obj'):
+    def __init__(self, rules, dflt=None, registered=(), enforce_scope=True, via='rules_obj', file_backed=False):
         self.dflt = dflt
         self.registered = list(registered)
         self.enforce_scope = enforce_scope
         texts = {n: ev.rule_text(t) for n, t in rules}
         reg = [(n, list(sc), texts.get(n, '!')) for n, sc in registered]
-        self.e = ev.make_enforcer(texts, dflt, reg, enforce_scope, via)
+        self.file_backed = file_backed
+        self.tmp = None
+        if file_backed:
+            # the start rules come from a policy file the enforcer loads itself (use_conf on: every call goes
+            # through load_rules, which also runs the rule-set sanity check); later changes are merges
+            import json as _json
+            import tempfile
+            from oslo_config import cfg
+            from oslo_policy import policy, _parser
+            self.tmp = tempfile.mkdtemp(prefix='verif_sess_')
+            path = os.path.join(self.tmp, 'policy.json')
+            with open(path, 'w') as f:
+                _json.dump(texts, f)
+            conf = cfg.ConfigOpts()
+            conf([], project='verif', default_config_files=[], default_config_dirs=[])
+            kw = {}
+            if dflt is not None and dflt[0] == 'opt':
+                policy.Enforcer(conf, use_conf=False)
+                conf.set_override('policy_default_rule', dflt[1], group='oslo_policy')
+            elif dflt is not None and dflt[0] == 'name':
+                kw['default_rule'] = dflt[1]
+            elif dflt is not None and dflt[0] == 'check':
+                kw['default_rule'] = _parser.parse_rule(ev.rule_text(dflt[1]))
+            self.e = policy.Enforcer(conf, policy_file=path, **kw)
+            conf.set_override('policy_dirs', [], group='oslo_policy')
+            conf.set_override('enforce_scope', bool(enforce_scope), group='oslo_policy')
+            self.e.load_rules()         # the session starts with the file loaded
+        else:
+            self.e = ev.make_enforcer(texts, dflt, reg, enforce_scope, via)
         self.trace = {'init': {'rules': [[n, ev.strip(t)] for n, t in rules], 'dflt': dflt_spec(dflt)}, 'events': []}
         self.cur = list(rules)
         self.log = []
@@ -202,7 +231,7 @@ class Session:
             arg = policy.Rules.from_dict(texts, sorted(texts)[0] if texts else 'default')
         else:
             arg = {n: _parser.parse_rule(t) for n, t in texts.items()}
-        self.e.set_rules(arg, overwrite=overwrite, use_conf=False)
+        self.e.set_rules(arg, overwrite=overwrite, use_conf=self.file_backed)
         if scribble:
             # the caller goes on using ITS object: the enforcer's rule store is not the caller's mapping
             from oslo_policy import _checks
@@ -218,6 +247,11 @@ class Session:
             d = dict(self.cur)
             d.update(dict(rules))
             self.cur = list(d.items())
+
+    def close(self):
+        if self.tmp:
+            import shutil
+            shutil.rmtree(self.tmp, ignore_errors=True)
 
     def clear(self):
         self.e.clear()
